@@ -52,6 +52,18 @@ class AsyncGeneratorType:
   pass
 
 
+def _get_type_key(pyval):
+  """The types of a constant and, for a tuple, (recursively) of its items.
+
+  Equal constants of different types, e.g. 1 == 1.0 == True, must not share a
+  cache entry, also when they are nested in equal tuples: ((1, 2),) ==
+  ((1.0, 2.0),).
+  """
+  if pyval.__class__ is tuple:
+    return tuple(_get_type_key(v) for v in pyval)
+  return type(pyval)
+
+
 class Converter(utils.ContextWeakrefMixin):
   """Functions for creating the classes in abstract.py."""
 
@@ -584,10 +596,7 @@ class Converter(utils.ContextWeakrefMixin):
       The converted constant. (Instance of BaseValue)
     """
     node = node or self.ctx.root_node
-    if pyval.__class__ is tuple:
-      type_key = tuple(type(v) for v in pyval)
-    else:
-      type_key = type(pyval)
+    type_key = _get_type_key(pyval)
     key = ("constant", pyval, type_key)
     if key in self._convert_cache:
       if self._convert_cache[key] is None:
